@@ -108,8 +108,24 @@ func UntarDirectory(r io.Reader, destDir string) error {
 	}
 	defer gzr.Close()
 
+	return ExtractTar(gzr, destDir)
+}
+
+// ExtractTar extracts an uncompressed tar stream to an existing destination directory.
+// Entry names are validated lexically and, because earlier entries can plant symbolic
+// links, every entry is placed by its real location: the links in its path are resolved
+// right before it is written and the result must lie under the real destination.
+func ExtractTar(r io.Reader, destDir string) error {
+	destDir = filepath.Clean(destDir)
+
+	// Real location of the destination, the root that resolved entry paths are held to
+	realDest, err := filepath.EvalSymlinks(destDir)
+	if err != nil {
+		return fmt.Errorf("failed to resolve destination directory: %w", err)
+	}
+
 	// Create tar reader
-	tr := tar.NewReader(gzr)
+	tr := tar.NewReader(r)
 
 	for {
 		header, err := tr.Next()
@@ -122,6 +138,14 @@ func UntarDirectory(r io.Reader, destDir string) error {
 
 		// Validate and sanitize the path
 		targetPath, err := sanitizeTarPath(destDir, header.Name)
+		if err != nil {
+			return err
+		}
+
+		// Resolve links created by earlier entries and hold the result to the destination.
+		// Link entries replace whatever has their name, so their last component is kept.
+		isLink := header.Typeflag == tar.TypeSymlink || header.Typeflag == tar.TypeLink
+		targetPath, err = containedPath(realDest, targetPath, !isLink)
 		if err != nil {
 			return err
 		}
@@ -153,9 +177,13 @@ func UntarDirectory(r io.Reader, destDir string) error {
 			file.Close()
 
 		case tar.TypeSymlink:
-			// Validate symlink target
-			if err := validateSymlink(destDir, targetPath, header.Linkname); err != nil {
+			// Validate symlink target, lexically and as the link will really resolve
+			if err := validateSymlink(realDest, targetPath, header.Linkname); err != nil {
 				return err
+			}
+			linkDir, _ := filepath.Split(targetPath)
+			if _, err := containedPath(realDest, linkDir+filepath.FromSlash(header.Linkname), true); err != nil {
+				return fmt.Errorf("symlink target escapes destination: %s -> %s", targetPath, header.Linkname)
 			}
 
 			// Create parent directories if needed
@@ -174,6 +202,10 @@ func UntarDirectory(r io.Reader, destDir string) error {
 		case tar.TypeLink:
 			// Hard links - validate target is within destDir
 			linkTarget, err := sanitizeTarPath(destDir, header.Linkname)
+			if err != nil {
+				return err
+			}
+			linkTarget, err = containedPath(realDest, linkTarget, true)
 			if err != nil {
 				return err
 			}
@@ -234,6 +266,31 @@ func sanitizeTarPath(destDir, name string) (string, error) {
 	}
 
 	return targetPath, nil
+}
+
+// containedPath returns the real location of a path inside the extraction destination,
+// with the links that earlier entries may have planted resolved, and fails if that
+// location is outside realDest (the real path of the destination). With followFinal false
+// the last component is kept as named, for entries created at that name. path must be
+// clean unless followFinal is set.
+func containedPath(realDest, path string, followFinal bool) (string, error) {
+	var realPath string
+	var err error
+	if followFinal {
+		realPath, err = resolvePath(path)
+	} else {
+		realPath, err = resolveParent(path)
+	}
+	if err != nil {
+		return "", fmt.Errorf("failed to resolve path %s: %w", path, err)
+	}
+
+	root := strings.TrimSuffix(realDest, string(filepath.Separator))
+	if realPath != realDest && !strings.HasPrefix(realPath, root+string(filepath.Separator)) {
+		return "", fmt.Errorf("path escapes destination directory: %s", path)
+	}
+
+	return realPath, nil
 }
 
 // validateSymlink checks if a symlink target is safe (doesn't escape the destination).
